@@ -8,8 +8,9 @@ import hv
 from hv import Case
 
 SPEC = {
-    "lean_modules": ["Honeycomb.Props.C09"],
-    "required_theorems": ["C09_roundtrip", "C09_roundtrip_small", "C09_coordsPrintable_of_small"],
+    "lean_modules": ["Honeycomb.Props.C09", "Honeycomb.Props.C09b"],
+    "required_theorems": ["C09_roundtrip", "C09_roundtrip_small", "C09_coordsPrintable_of_small",
+                          "C09_chars_tokenise_to_tokens", "C09_chars_reader_is_token_reader", "C09_char_level_round_trip"],
     "trusted_base": [
         "Lean 4.33 kernel; axioms propext, Classical.choice, Quot.sound only",
         "hand-written token-level model Honeycomb/Model/CmapText.lean (serialize, parseFile, build, load) tied to "
@@ -19,20 +20,27 @@ SPEC = {
         "serializer in tools/cmapgen.py)",
     ],
     "assumptions": [
-        "token level: column padding, separators and trailing blanks of the real text are not modelled; they are covered "
-        "by the byte-for-byte comparison of the second serialization on the implementation (`rt`), not by the theorem",
-        "coordinates are exact rationals printed as `p/q` tokens (opaque at this level): C09_roundtrip is stated under the "
-        "explicit hypothesis `CoordsPrintable m` (every printed token is `#`-free and read back by the model's parser as the "
-        "same rational); that hypothesis is PROVED (parseCoord_ratStr, noHash_ratStr; C09_roundtrip_small) for every "
-        "rational whose numerator and denominator have at most 18 digits (the range of the harness notation), so it is an "
-        "assumption only beyond that range; the float printing/parsing of the implementation (shortest round-trip decimal "
-        "of f64, f32 through f64) is validated on the implementation only (`rt`, `rt32`), not proved",
-        "numerals: the round trip `parseU32 (natTok v) = some v` is PROVED (lemma parseU32_natTok) from core's "
-        "Nat.ofDigitChars_ten_toDigits; it needs v < 2^32, hence the hypothesis n_darts <= 2^32 (u32 dart ids)",
-        "the null dart is not flagged as removed (hypothesis `m.unused 0 = false` of C09_roundtrip, added with the loader fix "
-        "7170072): `remove_free_dart(0)` is accepted by the public API, `serialize` then prints `0` in [UNUSED] and the validating "
-        "loader rejects that id (`new 2 1 0; rm 0; rt` -> `err InconsistentData 8`); the streams never flag the null dart",
-        "the version token (CARGO_PKG_VERSION) is a parameter of the theorem, assumed free of `#` and not starting with `[`",
+        "character level (Props/C09b): everything `serialize` writes except the decimal text of the coordinate VALUES is modelled "
+        "character by character (Model/CmapChars.lean: headers, META line, `{:>width$}` padding with width = "
+        "n_darts.to_string().len(), `trim` of the three buffers, the trailing blank of the UNUSED line, separators and newline of "
+        "the VERTICES lines) and PROVED to tokenise (`str::lines`, `str::split_whitespace` with Rust's Unicode White_Space) to the "
+        "token lines of the token-level model, for every map of every size (C09_chars_tokenise_to_tokens); the character-level "
+        "mirror of CMapFile::try_from is PROVED equal to the token-level reader after tokenisation for every character string "
+        "(C09_chars_reader_is_token_reader); hence C09_char_level_round_trip",
+        "coordinate values are written through a formatter parameter `fmt : Rat -> String` only assumed to produce non-empty "
+        "blank-free strings (Rust: Display for f64); the round-trip theorems instantiate it with the exact rational text "
+        "`ratStr` (proved to be such a token and to parse back for numerators/denominators of at most 18 digits); the decimal "
+        "printing/parsing of f64/f32 (shortest round-trip decimal) is validated on the implementation only (`rt`, `rt32`)",
+        "numerals: `{}` of an integer = Nat.toDigits 10 = Nat.repr; the reader's parse::<u32/usize> (optional `+`, leading zeros, "
+        "no `_`, bound) is parseUChars; the round trip parseU32 (natTok v) = some v is PROVED (core's "
+        "Nat.ofDigitChars_ten_toDigits); it needs v < 2^32, hence the hypothesis n_darts <= 2^32",
+        "the null dart is not flagged as removed (hypothesis `m.unused 0 = false`, needed since the loader fix 7170072): "
+        "`remove_free_dart(0)` is accepted by the public API, `serialize` then prints `0` in [UNUSED] and the validating loader "
+        "rejects that id (`new 2 1 0; rm 0; rt` -> `err InconsistentData 8`); the streams never flag the null dart",
+        "the version token (CARGO_PKG_VERSION) is a parameter of the theorems, assumed non-empty, blank-free, free of `#` and not "
+        "starting with `[`",
+        "`value.trim()` before `lines()` is not modelled separately: blank lines are skipped and every line is trimmed, so it "
+        "has no effect on the result",
         "two-sided streams only use exactly representable dyadic coordinates (|p| < 2^53, denominators up to 2^59); "
         "-0.0, subnormals, huge values, infinities and f32 maps are exercised on the implementation only (stream `special floats`) "
         "because the model's coordinates are rationals; NaN is excluded (its payload is not printed)",
@@ -42,12 +50,17 @@ SPEC = {
             "serializer), rt (implementation and model must answer `rt true true`), loadtext of the expected tokens, snap and ser "
             "of the rebuilt map; random: WF maps with 5..60 darts, removed and isolated darts, wide dyadic coordinates; widths: "
             "chains/cycles/pairs/free maps with n_darts in {9,10,11,99,100,101,999,1000,1001}; special floats (implementation "
-            "only): +-0, subnormals, MIN_POSITIVE, MAX, +-inf, random bit patterns, f32 maps via rt32.",
+            "only): +-0, subnormals, MIN_POSITIVE, MAX, +-inf, random bit patterns, f32 maps via rt32. Character level, in every "
+            "two-sided case: `serhex` = the BYTES of the real serializer (coordinate fields replaced by their exact rational text, "
+            "every other byte kept) must equal the character-level model and an independent Python rendering (padding, trim, "
+            "trailing blank, newlines), `loadhex` feeds a raw text with exact decimal coordinates to the real reader and the "
+            "character-level model, snapshot and bytes of the second serialization compared.",
     "not_proved": [
-        "character level of the format (column padding, separators, float decimal printing/parsing, f32): validated by the "
-        "byte-for-byte and bit-for-bit checks `rt` / `rt32` on the implementation, not proved",
+        "the decimal text of coordinate values (Display / FromStr for f64, f32 through f64): validated by the byte-for-byte and "
+        "bit-for-bit checks `rt` / `rt32` on the implementation, not proved",
         "coordinates outside the 18-digit rational range (e.g. subnormals, 1e300) and -0.0 / infinities are not representable "
         "in the model: covered by the implementation-only stream",
+        "std::thread::scope in serialize (the three buffers are filled by three threads): the model is the sequential result",
     ],
 }
 
@@ -92,9 +105,16 @@ def roundtrip_case(cid, rng, n, b0, b1, b2, u, coord, pv=0.7, mask=None, sig="ro
             lines.append(f"wv {d} {x} {y}")
     verts = {d: (cg.fr_tok(cg.parse_coord(x)), cg.fr_tok(cg.parse_coord(y))) for d, (x, y) in vals.items()}
     expect = cg.ser_lines(n, b0, b1, b2, u, verts)
-    lines += ["snap", "ser", "rt", cg.loadtext_line(mask, expect), "snap", "ser"]
+    # character level: the bytes of serialize (coordinates as exact rationals) and a raw text with the exact
+    # decimal expansion of every (dyadic) coordinate, fed to the reader without any conversion
+    text_rat = cg.ser_text(n, b0, b1, b2, u, verts)
+    decs = {d: (cg.exact_decimal(cg.parse_coord(x)), cg.exact_decimal(cg.parse_coord(y))) for d, (x, y) in vals.items()}
+    text_dec = cg.ser_text(n, b0, b1, b2, u, decs)
+    lines += ["snap", "ser", "rt", cg.loadtext_line(mask, expect), "snap", "ser",
+              "serhex", f"loadhex {mask} {cg.hexs(text_dec)}", "snap", "serhex"]
     return Case(cid, lines, oracle="rt",
                 meta={"sig": sig, "expect_ser": "ser " + cg.lines_str(expect),
+                      "expect_serhex": "serhex " + cg.hexs(text_rat),
                       "vids": cg.vertex_ids(n, b0, b1, b2, u), "nvals": len(vals)})
 
 
@@ -112,8 +132,15 @@ def oracle_rt(case, li):
         return None
     if any(ln.startswith("<missing") for ln in li):
         return li[0]
-    k = len(case.lines) - 6
-    snap1, ser1, rt, lt, snap2, ser2 = li[k:k + 6]
+    k = len(case.lines) - 10
+    snap1, ser1, rt, lt, snap2, ser2, hex1, lh, snap3, hex2 = li[k:k + 10]
+    if hex1 != case.meta["expect_serhex"]:
+        return ("the BYTES of serialize differ from the expected characters: got "
+                f"{bytes.fromhex(hex1.split()[1]).decode(errors='replace')[:300]!r}" if hex1.startswith("serhex ") else f"serhex: {hex1[:80]!r}")
+    if lh != "ok":
+        return f"the raw text (exact decimals) is not accepted by the loader: {lh}"
+    if hex2 != hex1:
+        return "the bytes of the second serialization (after reading the raw text) differ"
     if ser1 != case.meta["expect_ser"]:
         return f"serialization differs from the expected tokens: got {ser1[:200]!r} expected {case.meta['expect_ser'][:200]!r}"
     if rt != "rt true true":
@@ -125,16 +152,20 @@ def oracle_rt(case, li):
     s1, s2 = cg.parse_snap(snap1), cg.parse_snap(snap2)
     if s1 is None or s2 is None:
         return f"no snapshot: {snap1[:80]!r} {snap2[:80]!r}"
-    for k2 in ("n", "b0", "b1", "b2", "u"):
-        if s1[k2] != s2[k2]:
-            return f"rebuilt map differs in {k2}"
+    s3 = cg.parse_snap(snap3)
+    if s3 is None:
+        return f"no snapshot: {snap3[:80]!r}"
     vids = set(case.meta["vids"])
-    for d in range(s1["n"]):
-        if d in vids:
-            if s1["a0"][d] != s2["a0"][d]:
-                return f"vertex {d} differs after the round trip: {s1['a0'][d]} -> {s2['a0'][d]}"
-        elif s2["a0"][d] != "none":
-            return f"rebuilt map has a value at {d} which is not a vertex id"
+    for which, sx in (("tokens", s2), ("raw text", s3)):
+        for k2 in ("n", "b0", "b1", "b2", "u"):
+            if s1[k2] != sx[k2]:
+                return f"map rebuilt from the {which} differs in {k2}"
+        for d in range(s1["n"]):
+            if d in vids:
+                if s1["a0"][d] != sx["a0"][d]:
+                    return f"vertex {d} differs after the round trip ({which}): {s1['a0'][d]} -> {sx['a0'][d]}"
+            elif sx["a0"][d] != "none":
+                return f"map rebuilt from the {which} has a value at {d} which is not a vertex id"
     return None
 
 
